@@ -604,10 +604,11 @@ def split_parallel_assignments(fn, recorded_names):
                 and isinstance(st.targets[0], ast.Tuple)
                 and isinstance(st.value, ast.Tuple)
                 and len(st.targets[0].elts) == len(st.value.elts)
-                and all(isinstance(x, ast.Name) and x.id not in recorded_names for x in st.targets[0].elts)
+                and all((isinstance(x, ast.Name)) or (isinstance(x, ast.Attribute) and all(isinstance(y, (ast.Attribute, ast.Name, ast.Load, ast.Store)) for y in ast.walk(x))) for x in st.targets[0].elts)
+                and (all(isinstance(x, ast.Name) and x.id not in recorded_names for x in st.targets[0].elts) or any(isinstance(x, ast.Attribute) for x in st.targets[0].elts))
             ):
-                tnames = {x.id for x in st.targets[0].elts}
-                if not any(isinstance(x, ast.Name) and x.id in tnames for v in st.value.elts for x in ast.walk(v)) and len(tnames) == len(st.targets[0].elts):
+                tnames = {ast.unparse(x) for x in st.targets[0].elts}
+                if not any(isinstance(x, (ast.Name, ast.Attribute)) and ast.unparse(x) in tnames for v in st.value.elts for x in ast.walk(v)) and len(tnames) == len(st.targets[0].elts):
                     new = [ast.copy_location(ast.Assign(targets=[tg], value=v), st) for tg, v in zip(st.targets[0].elts, st.value.elts)]
                     for x in new:
                         ast.fix_missing_locations(x)
@@ -981,6 +982,44 @@ def inline_new_helpers(project, rec):
             if nonlocal_count[0]:
                 count += nonlocal_count[0]
                 changed = True
+            # (b0) a statement helper called inside a larger expression is first hoisted into a temporary
+            #      (`y = g(self._h(x))` -> `_h_tN = self._h(x); y = g(_h_tN)`), when the call is evaluated unconditionally
+            for owner, blk in list(_blocks(fn)):
+                i = 0
+                while i < len(blk):
+                    st = blk[i]
+                    roots = []
+                    if isinstance(st, (ast.Assign, ast.AnnAssign, ast.AugAssign, ast.Return, ast.Expr)) and getattr(st, "value", None) is not None:
+                        roots = [st.value]
+                    hoisted = False
+                    for root in roots:
+                        for c in ast.walk(root):
+                            if not isinstance(c, ast.Call) or c is root:
+                                continue
+                            got, drop = resolve(c, caller)
+                            if got is None or got[3][0] != "stmts" or got[0] is caller or got[3][2] is None:
+                                continue
+                            if not _unconditional(root, c):
+                                continue
+                            _H[0] += 1
+                            tmp = f"_{got[0].name.strip('_')}_t{_H[0]}"
+                            new_asg = ast.copy_location(ast.Assign(targets=[ast.Name(id=tmp, ctx=ast.Store())], value=c), st)
+                            ast.fix_missing_locations(new_asg)
+
+                            class H(ast.NodeTransformer):
+                                def visit_Call(self, n):
+                                    if n is c:
+                                        return ast.copy_location(ast.Name(id=tmp, ctx=ast.Load()), n)
+                                    return self.generic_visit(n)
+
+                            st.value = H().visit(st.value)
+                            blk.insert(i, new_asg)
+                            hoisted = True
+                            changed = True
+                            break
+                        if hoisted:
+                            break
+                    i += 1
             # (b) statement helpers at statement level
             for owner, blk in list(_blocks(fn)):
                 i = 0
@@ -1104,6 +1143,34 @@ def inline_new_helpers(project, rec):
     return count
 
 
+def materialise_inherited(project, rec):
+    """Undo `pull up method` / `template method`: a method the record knows on class C (`C.m`) that C no longer defines
+    but now inherits from a base class is copied into C in memory, so that `self.helper(...)` calls in it resolve to
+    C's own overrides (and are then inlined like any other new helper).  The copy runs exactly the inherited code with
+    the subclass as receiver - what the interpreter does."""
+    import copy
+
+    from .model import FunctionInfo
+
+    n = 0
+    for q in list(rec):
+        if "#" in q or q in project.functions:
+            continue
+        cq, _, m = q.rpartition(".")
+        ci = project.classes.get(cq)
+        if ci is None or m in ci.methods:
+            continue
+        base = project.lookup_method(ci, m)
+        if base is None or base.cls is ci:
+            continue
+        node = copy.deepcopy(base.node)
+        fi = FunctionInfo(q, m, node, ci.module, ci, base.kind)
+        ci.methods[m] = fi
+        project.functions[q] = fi
+        n += 1
+    return n
+
+
 def normalise(project, path=PINNED):
     """Alpha-normalise every function of ``project`` in place; returns statistics for the evidence."""
     stats = {"functions_recorded": 0, "functions_renamed": 0, "locals_renamed": 0, "comparisons_mirrored": 0, "locals_inlined": 0, "locals_reextracted": 0, "examples": []}
@@ -1112,6 +1179,7 @@ def normalise(project, path=PINNED):
     with open(path) as fh:
         rec = json.load(fh)
     stats["functions_recorded"] = sum(1 for k in rec if "#" not in k)
+    stats["inherited_methods_materialised"] = materialise_inherited(project, rec)
     try:
         stats["module_constants_inlined"] = inline_new_module_constants(project, rec)
     except RecursionError:  # pragma: no cover
